@@ -269,6 +269,34 @@ def m_for_each(it, args, callee, depth):
     return ("tuple", [])
 
 
+def m_try_for_each(it, args, callee, depth):
+    """Iterator::try_for_each: stops at the first Err / None / Break the closure returns and hands it back; otherwise the unit success"""
+    src = as_iter(it, args[0])
+    kind = None
+    while True:
+        x = src.next(it, depth)
+        if x is None:
+            break
+        r = A.deref_all(it, it.invoke(args[1], [x], depth))
+        if not (isinstance(r, tuple) and r[0] == "adt" and r[2] in ("Ok", "Err", "Some", "None", "Continue", "Break")):
+            raise A.Undecided("try_for_each closure returned %r" % (str(r)[:60],))
+        kind = r[1]
+        if r[2] in ("Err", "None", "Break"):
+            return r
+    full = " ".join([(callee or {}).get("full", ""), " ".join((callee or {}).get("args") or [])])
+    if kind is None:
+        kind = "core::option::Option" if "Option<" in full else "core::ops::control_flow::ControlFlow" if "ControlFlow<" in full else "core::result::Result"
+    ok = {"core::result::Result": "Ok", "core::option::Option": "Some", "core::ops::control_flow::ControlFlow": "Continue"}.get(kind)
+    if ok is None:
+        raise A.Undecided("try_for_each over %s" % kind)
+    return ("adt", kind, ok, [("tuple", [])])
+
+
+def m_count(it, args, callee, depth):
+    """Iterator::count: consumes the iterator (adaptor closures run for every item)"""
+    return len(_drain(as_iter(it, args[0]), it, depth))
+
+
 def m_collect(it, args, callee, depth):
     return ("array", _drain(as_iter(it, args[0]), it, depth))
 
@@ -406,6 +434,8 @@ ALG_MODELS = {
     "core::iter::traits::iterator::Iterator::fold": m_fold,
     "core::iter::traits::iterator::Iterator::sum": m_sum,
     "core::iter::traits::iterator::Iterator::for_each": m_for_each,
+    "core::iter::traits::iterator::Iterator::try_for_each": m_try_for_each,
+    "core::iter::traits::iterator::Iterator::count": m_count,
     "core::iter::traits::iterator::Iterator::collect": m_collect,
     "core::array::from_fn": m_from_fn,
     "array::<impl [T; N]>::map": m_array_map,
